@@ -154,6 +154,16 @@ func (n eqNode) build() any {
 		return eqPrivate{n.Vs[0], n.Vs[1]}
 	case "cond":
 		return stackage.Cond(n.Kw, c05Op(n.Op), n.Kids[0].build())
+	case "zero": // a zero-valued handle as an element: equal to another zero value, different from anything live
+		switch n.Kind {
+		case "Stack":
+			return stackage.Stack{}
+		case "Condition":
+			return stackage.Condition{}
+		case "StackAlias":
+			return StackAlias{}
+		}
+		panic(n.Kind)
 	case "barr":
 		b := make([]byte, len(n.Vs))
 		for i, v := range n.Vs {
@@ -219,6 +229,8 @@ func (n eqNode) String() string {
 		return fmt.Sprintf("%s(%d)", n.Kind, n.Vs[0])
 	case "barr":
 		return fmt.Sprintf("%s%v", n.Kind, n.Vs)
+	case "zero":
+		return "zero-" + n.Kind
 	case "strs":
 		return fmt.Sprintf("%q", n.Ss)
 	case "map":
@@ -323,6 +335,12 @@ func (n eqNode) mutants() []eqNode {
 			}
 			add(m3, "anyslice bool element changed")
 		}
+	case "zero":
+		live := eqNode{T: "stack", Kind: "OR", Kids: []eqNode{{T: "prim", V: 1, Kind: "int"}}}
+		if n.Kind == "Condition" {
+			live = eqNode{T: "cond", Kw: "k", Op: 1, Kids: []eqNode{{T: "prim", V: "v"}}}
+		}
+		add(live, "zero "+n.Kind+" replaced by a live one")
 	case "fslice", "ptr3", "typed", "barr":
 		for i := range n.Vs {
 			m := cloneNode(n)
@@ -446,8 +464,9 @@ func (n eqNode) mutants() []eqNode {
 		}
 		for i := 0; i+1 < len(n.Kids); i++ {
 			// IsEqual documents that it does not distinguish slices from arrays of equal content
-			// ... and that pointers are flattened at any depth (a *int 7 is the leaf value 7)
-			norm := strings.NewReplacer("array", "slice", "&", "", "pstruct", "struct", "alias:", "stack:", "*[3]byte", "bytes", "[3]byte", "bytes", "[]byte", "bytes")
+			// ... and that pointers are flattened at any depth (a *int 7 is the leaf value 7); which hollow
+			// (zero-valued) handle sits where is not a difference the statement speaks about
+			norm := strings.NewReplacer("array", "slice", "&", "", "pstruct", "struct", "alias:", "stack:", "*[3]byte", "bytes", "[3]byte", "bytes", "[]byte", "bytes", "zero-Stack", "zero", "zero-Condition", "zero", "zero-StackAlias", "zero")
 			if norm.Replace(n.Kids[i].String()) != norm.Replace(n.Kids[i+1].String()) {
 				m5 := cloneNode(n)
 				m5.Kids[i], m5.Kids[i+1] = m5.Kids[i+1], m5.Kids[i]
@@ -480,6 +499,7 @@ func eqLeaves() []eqNode {
 		{T: "barr", Kind: "[3]byte", Vs: []int{1, 2, 3}}, {T: "barr", Kind: "[]byte", Vs: []int{1, 2, 3}}, {T: "barr", Kind: "*[3]byte", Vs: []int{1, 2, 3}},
 		{T: "barr", Kind: "[2]uint16", Vs: []int{1, 2}}, {T: "barr", Kind: "[2]bool", Vs: []int{1, 2}}, {T: "barr", Kind: "struct{[2]byte}", Vs: []int{1, 2, 4}},
 		{T: "barr", Kind: "map[string][2]byte", Vs: []int{1, 2}}, {T: "barr", Kind: "[2][2]byte", Vs: []int{1, 2, 4}},
+		{T: "zero", Kind: "Stack"}, {T: "zero", Kind: "Condition"}, {T: "zero", Kind: "StackAlias"},
 	}
 }
 
